@@ -77,24 +77,34 @@ Alphas == << <<1, 1>>, <<1, 2>>, <<0, 1>>, <<1, 1>>, <<200, 255>> >>
 MaskData == <<0, 1, 2, 127, 128, 254, 255, 255, 16, 0, 255, 64>>
 Opacities == << <<1, 1>>, <<1, 2>>, <<0, 1>>, <<1, 4>>, <<254, 255>> >>
 
-(* the k-th drawing call of the product space                               *)
-Opts(k) == [blend |-> Modes[(k % 28) + 1], alpha |-> Alphas[((k \div 28) % 5) + 1], aa |-> (k \div 7) % 5 # 0]
-DrawCall(k) ==
-  LET kind == (k \div 3) % 11
-      shape == Shapes[((k \div 11) % Len(Shapes)) + 1]
-      src == Sources[((k \div 5) % Len(Sources)) + 1]
+(* the k-th drawing call of the product space; the parameters are independent mixed-radix *)
+(* digits of k: kind (11), shape (10), source (11), mode (28), alpha (5), aa (5), extra (60) *)
+DKind(k)  == k % 11
+DShape(k) == (k \div 11) % 10
+DSrc(k)   == (k \div 110) % 11
+DMode(k)  == (k \div 1210) % 28
+DAlpha(k) == (k \div 33880) % 5
+DAA(k)    == (k \div 169400) % 5
+DX(k)     == (k \div 847000) % 60
+Opts(k) == [blend |-> Modes[DMode(k) + 1], alpha |-> Alphas[DAlpha(k) + 1], aa |-> DAA(k) # 0]
+DrawCall(k0) ==
+  LET k == k0 % 50820000
+      kind == DKind(k)
+      shape == Shapes[DShape(k) + 1]
+      src == Sources[DSrc(k) + 1]
+      x == DX(k)
   IN CASE kind \in {0, 1, 2, 3} -> [op |-> "fill", path |-> shape, src |-> src, opts |-> Opts(k)]
-       [] kind = 4 -> [op |-> "fill_rect", r |-> << <<4, 4, 12, 8>>, <<-8, 8, 40, 4>>, <<3, 5, 9, 6>>, <<8, 8, -4, -4>> >>[((k \div 13) % 4) + 1],
+       [] kind = 4 -> [op |-> "fill_rect", r |-> << <<4, 4, 12, 8>>, <<-8, 8, 40, 4>>, <<3, 5, 9, 6>>, <<8, 8, -4, -4>> >>[(x % 4) + 1],
                        src |-> src, opts |-> Opts(k)]
-       [] kind = 5 -> [op |-> "clear", color |-> << <<255, 0, 255, 0>>, <<0, 0, 0, 0>>, <<100, 100, 50, 0>> >>[((k \div 13) % 3) + 1]]
-       [] kind = 6 -> [op |-> "mask", x |-> <<0, 1, -1, 3>>[((k \div 13) % 4) + 1], y |-> <<0, 2, 1, -2>>[((k \div 17) % 4) + 1],
+       [] kind = 5 -> [op |-> "clear", color |-> << <<255, 0, 255, 0>>, <<0, 0, 0, 0>>, <<100, 100, 50, 0>> >>[(x % 3) + 1]]
+       [] kind = 6 -> [op |-> "mask", x |-> <<0, 1, -1, 3>>[(x % 4) + 1], y |-> <<0, 2, 1, -2>>[((x \div 4) % 4) + 1],
                        mw |-> 4, mh |-> 3, data |-> MaskData, src |-> src]
-       [] kind = 7 -> [op |-> "draw_image_at", x |-> <<0, 4, -4, 12, 2>>[((k \div 13) % 5) + 1], y |-> <<0, 8, -4, 4, 3>>[((k \div 17) % 5) + 1],
-                       img |-> IF k % 2 = 0 THEN Img2 ELSE Img3, opts |-> Opts(k)]
+       [] kind = 7 -> [op |-> "draw_image_at", x |-> <<0, 4, -4, 12, 2>>[(x % 5) + 1], y |-> <<0, 8, -4, 4, 3>>[((x \div 5) % 5) + 1],
+                       img |-> IF x % 2 = 0 THEN Img2 ELSE Img3, opts |-> Opts(k)]
        [] kind = 8 -> [op |-> "draw_image_with_size_at", w |-> 12, h |-> 16, x |-> 4, y |-> 0, img |-> Img2, opts |-> Opts(k)]
        [] kind \in {9, 10} -> [op |-> "stroke", path |-> shape,
-                       style |-> [width |-> <<4, 8, 0, 2>>[((k \div 13) % 4) + 1], cap |-> <<"Butt", "Round", "Square">>[((k \div 17) % 3) + 1],
-                                  join |-> <<"Miter", "Round", "Bevel">>[((k \div 19) % 3) + 1], miter |-> <<4, 1>>],
+                       style |-> [width |-> <<4, 8, 0, 2>>[(x % 4) + 1], cap |-> <<"Butt", "Round", "Square">>[((x \div 4) % 3) + 1],
+                                  join |-> <<"Miter", "Round", "Bevel">>[((x \div 12) % 3) + 1], miter |-> <<4, 1>>],
                        src |-> src, opts |-> Opts(k)]
 
 SetupMenu ==
@@ -113,7 +123,9 @@ SetupMenu ==
     [] OTHER ->
          {[op |-> "push_clip_rect", r |-> ClipRects[i]] : i \in {1, 3, 5, 9}}
          \cup {[op |-> "push_clip", path |-> ClipPaths[i]] : i \in {1, 2}}
-         \cup {[op |-> "push_layer", opacity |-> Opacities[2], blend |-> "SrcOver"]}
+         \cup {[op |-> "push_layer", opacity |-> Opacities[2], blend |-> "SrcOver"],
+               [op |-> "push_layer", opacity |-> Opacities[1], blend |-> "Src"],
+               [op |-> "push_layer", opacity |-> Opacities[1], blend |-> "DstIn"]}
          \cup {Transforms[i] : i \in {2, 4, 6, 10}}
 
 PushKind(c) == IF c.op \in {"push_clip_rect", "push_clip"} THEN "clip"
@@ -141,7 +153,7 @@ DoPop == /\ NSetup < D /\ stk # <<>> /\ (nd >= 1 \/ FOCUS \in {"clip", "layer"})
          /\ UNCHANGED nd
 DoDraw == /\ nd < DRAWS
           /\ \E i \in 1..NDRAW :
-               /\ calls' = Append(calls, DrawCall(Hash(calls) * 7 + i * 104729))
+               /\ calls' = Append(calls, DrawCall(Hash(calls) * 1013 + i * 15485863))
                /\ hs' = (hs * 31 + i) % 1000003
           /\ nd' = nd + 1
           /\ UNCHANGED stk
